@@ -22,6 +22,11 @@ pub fn filter_peer(msg: &DynamicHeader) -> bool {
     }
 }
 
+/// 128 bits as 32 hex digits
+fn format_machine_uuid(rand1: u64, rand2: u32, secs: u32) -> String {
+    format!("{:016X}{:08X}{:08X}", rand1, rand2, secs)
+}
+
 fn create_and_store_machine_uuid() -> Result<(), std::io::Error> {
     let now = std::time::SystemTime::now();
     let secs = now.duration_since(std::time::UNIX_EPOCH).unwrap().as_secs() as u32;
@@ -44,7 +49,7 @@ fn create_and_store_machine_uuid() -> Result<(), std::io::Error> {
         | ((rand[1] as u32) << 16)
         | ((rand[11] as u32) << 24);
 
-    let uuid = format!("{:08X}{:04X}{:04X}", rand1, rand2, secs);
+    let uuid = format_machine_uuid(rand1, rand2, secs);
     println!("{}", uuid);
     // will be 128bits of data in 32 byte
     debug_assert_eq!(32, uuid.chars().count());
